@@ -14,7 +14,7 @@ PROPS = {
     "C02": {
         "coq": "Properties/C02.v",
         "coq_extra": ["Properties/C02src.v"],
-        "pinchecks": ["PinChecks/PcEffector.v", "PinChecks/PcEffectorGen.v"] + ["PinChecks/PcEnforcer2Gen.v", "PinChecks/PcEnforceGen.v", "PinChecks/PcEnforcerGen.v", "PinChecks/PcBody_fmacros.v"],
+        "pinchecks": ["PinChecks/PcEffector.v", "PinChecks/PcEffectorGen.v"] + ["PinChecks/PcEnforcer2Gen.v", "PinChecks/PcEnforceGen.v", "PinChecks/PcEnforcerGen.v", "PinChecks/PcModel2Gen.v"],
         "gen": "c02",
         "level_text": "Coq theorems (c02_result, c02_early_final, c02_cap_complete, c02_next_readable, c02_forced_*) prove for every "
                       "effect rule and every finite sequence (unbounded length) that the streaming combiner equals the declarative "
@@ -57,8 +57,8 @@ PROPS = {
     "C01": {
         "coq": "Properties/C01.v",
         "coq_extra": ["Properties/C16e.v", "Properties/C01src.v"],
-        "pinchecks": ["PinChecks/PcEnforcer2Gen.v", "PinChecks/PcEnforceGen.v", "PinChecks/PcEnforcerGen.v", "PinChecks/PcLiterals.v", "PinChecks/PcBody_fmacros.v", "PinChecks/PcEffector.v", "PinChecks/PcEffectorGen.v",
-                      "PinChecks/PcBody_fconvert.v", "PinChecks/PcIniGen.v", "PinChecks/PcRegexGen.v", "Gen/RegexExamples.v", "PinChecks/PcRegexFmGen.v", "PinChecks/PcStrFnGen.v"] + ["PinChecks/PcBody_model.v", "PinChecks/PcStoreGen.v", "PinChecks/PcLinksGen.v", "PinChecks/PcRoleGraph.v", "PinChecks/PcRoleManagerGen.v"],
+        "pinchecks": ["PinChecks/PcEnforcer2Gen.v", "PinChecks/PcEnforceGen.v", "PinChecks/PcEnforcerGen.v", "PinChecks/PcLiterals.v", "PinChecks/PcModel2Gen.v", "PinChecks/PcEffector.v", "PinChecks/PcEffectorGen.v",
+                      "PinChecks/PcIniGen.v", "PinChecks/PcRegexGen.v", "Gen/RegexExamples.v", "PinChecks/PcRegexFmGen.v", "PinChecks/PcStrFnGen.v"] + ["PinChecks/PcStoreGen.v", "PinChecks/PcLinksGen.v", "PinChecks/PcRoleGraph.v", "PinChecks/PcRoleManagerGen.v"],
         "gen": "c01",
         "level_text": "Coq theorem c01_enforce_is_perm: for EVERY model store, matcher AST, function table, request (any arity/types), "
                       "effect rule and flag the enforcement loop of the model equals the PERM reference (per-rule outcomes in stored order, "
@@ -96,7 +96,7 @@ PROPS = {
 }
 
 
-ENGINE_PINS = ["PinChecks/PcEnforcer2Gen.v", "PinChecks/PcEnforceGen.v", "PinChecks/PcEnforcerGen.v", "PinChecks/PcBody_model.v", "PinChecks/PcStoreGen.v", "PinChecks/PcLinksGen.v", "PinChecks/PcInternalGen.v", "PinChecks/PcFsaveGen.v", "PinChecks/PcAdaptersGen.v", "PinChecks/PcBody_fmgmtapi.v", "PinChecks/PcApiGen.v", "PinChecks/PcQueryGen.v", "PinChecks/PcBody_frbacapi.v", "PinChecks/PcRoleGraph.v", "PinChecks/PcRoleManagerGen.v", "PinChecks/PcLiterals.v", "PinChecks/PcBody_fmacros.v"]
+ENGINE_PINS = ["PinChecks/PcEnforcer2Gen.v", "PinChecks/PcEnforceGen.v", "PinChecks/PcEnforcerGen.v", "PinChecks/PcModel2Gen.v", "PinChecks/PcStoreGen.v", "PinChecks/PcLinksGen.v", "PinChecks/PcInternalGen.v", "PinChecks/PcFsaveGen.v", "PinChecks/PcAdaptersGen.v", "PinChecks/PcBody_fmgmtapi.v", "PinChecks/PcApiGen.v", "PinChecks/PcQueryGen.v", "PinChecks/PcBody_frbacapi.v", "PinChecks/PcRoleGraph.v", "PinChecks/PcRoleManagerGen.v", "PinChecks/PcLiterals.v"]
 ENGINE_NOTE = ("trusted: Coq kernel, extraction, harness; modelled not verified: hashlink LinkedHashSet/LinkedHashMap order (insert moves an existing entry "
                "to the back), petgraph adjacency order, rhai on the matcher fragment; adapters are modelled at the level of parsed lines (the CSV text level is "
                "C16/C09-text); every modelled function body is pinned by hash to the source it was aligned with")
@@ -105,8 +105,8 @@ PROPS.update({
     "C06": {
         "coq": "Properties/C06.v",
         "coq_extra": ["Properties/C06src.v"],
-        "pinchecks": ["PinChecks/PcEnforcer2Gen.v", "PinChecks/PcEnforceGen.v", "PinChecks/PcEnforcerGen.v", "PinChecks/PcFmapGen.v", "Gen/RegexSyntaxExamples.v", "PinChecks/PcStrFnGen.v", "PinChecks/PcLiterals.v", "PinChecks/PcEffector.v", "PinChecks/PcEffectorGen.v", "PinChecks/PcBody_fconvert.v",
-                      "PinChecks/PcBody_fmacros.v", "PinChecks/PcRoleGraph.v", "PinChecks/PcRoleManagerGen.v"] + ["PinChecks/PcBody_ferror.v"],
+        "pinchecks": ["PinChecks/PcEnforcer2Gen.v", "PinChecks/PcEnforceGen.v", "PinChecks/PcEnforcerGen.v", "PinChecks/PcFmapGen.v", "Gen/RegexSyntaxExamples.v", "PinChecks/PcStrFnGen.v", "PinChecks/PcLiterals.v", "PinChecks/PcEffector.v", "PinChecks/PcEffectorGen.v", "PinChecks/PcModel2Gen.v",
+                      "PinChecks/PcRoleGraph.v", "PinChecks/PcRoleManagerGen.v"] + ["PinChecks/PcBody_ferror.v"],
         "gen": "c06",
         "partial": "never-hang / never-panic of the regex crate and of rhai is NOT a theorem: it is watchdog + catch_unwind evidence from the differential run; "
                    "the theorems cover the model's enforcement loop and built-ins",
@@ -217,7 +217,7 @@ PROPS.update({
 PROPS.update({
     "C04": {
         "coq": "Properties/C04.v",
-        "coq_extra": ["Properties/SrcStep.v", "Properties/C04src.v"],
+        "coq_extra": ["Properties/SrcStep.v", "Properties/C04src.v", "Properties/Model2Gen.v"],
         "pinchecks": ENGINE_PINS,
         "gen": "c04",
         "level_text": "Coq theorems over the engine: StoreInv (duplicate-free lists) for every reachable state of every history (c04_inv_run); each model-level "
@@ -291,8 +291,8 @@ PROPS.update({
 PROPS.update({
     "C11": {
         "coq": "Properties/C11.v",
-        "coq_extra": ["Properties/C11src.v"],
-        "pinchecks": ENGINE_PINS + ["PinChecks/PcBody_fconvert.v"] + ["PinChecks/PcBody_fcachedenforcer.v", "PinChecks/PcCachedGen.v", "PinChecks/PcBody_fdefaultcache.v", "PinChecks/PcBody_femitter.v", "PinChecks/PcCached.v"],
+        "coq_extra": ["Properties/C11src.v", "Properties/Model2Gen.v"],
+        "pinchecks": ENGINE_PINS + ["PinChecks/PcBody_fcachedenforcer.v", "PinChecks/PcCachedGen.v", "PinChecks/PcBody_femitter.v", "PinChecks/PcCached.v"],
         "gen": "c11",
         "level_text": "Coq theorems over Model/Cached.v: cache coherence is an invariant of every history over the complete mutating surface and every request "
                       "(c11_coherent_reachable), a call that keeps the cache changes no decision (c11_noclear_no_change), the cached step refines the plain step "
@@ -328,7 +328,8 @@ PROPS.update({
 PROPS.update({
     "C20": {
         "coq": "Properties/C20.v",
-        "pinchecks": ["PinChecks/PcLocks.v", "PinChecks/PcFmapGen.v", "Gen/RegexSyntaxExamples.v", "PinChecks/PcStrFnGen.v", "PinChecks/PcRegexFmGen.v", "PinChecks/PcBody_fmacros.v", "PinChecks/PcBody_frbacapi.v", "PinChecks/PcEnforcer2Gen.v", "PinChecks/PcEnforceGen.v", "PinChecks/PcEnforcerGen.v", "PinChecks/PcBody_fcachedenforcer.v", "PinChecks/PcCachedGen.v"] + ["PinChecks/PcBody_fdefaultcache.v", "PinChecks/PcCached.v", "PinChecks/PcRoleGraph.v", "PinChecks/PcRoleManagerGen.v"],
+        "coq_extra": ["Properties/LocksGen.v"],
+        "pinchecks": ["PinChecks/PcLocks.v", "PinChecks/PcLocksGen.v", "PinChecks/PcFmapGen.v", "Gen/RegexSyntaxExamples.v", "PinChecks/PcStrFnGen.v", "PinChecks/PcRegexFmGen.v", "PinChecks/PcModel2Gen.v", "PinChecks/PcBody_frbacapi.v", "PinChecks/PcEnforcer2Gen.v", "PinChecks/PcEnforceGen.v", "PinChecks/PcEnforcerGen.v", "PinChecks/PcBody_fcachedenforcer.v", "PinChecks/PcCachedGen.v"] + ["PinChecks/PcCached.v", "PinChecks/PcRoleGraph.v", "PinChecks/PcRoleManagerGen.v"],
         "gen": "c20",
         "partial": "PARTIAL by nature: the theorems are about an abstract small-step semantics of two writer-preferring, non-re-entrant read-write locks and the "
                    "thread programs the code follows; that rustc / parking_lot / mini-moka / rhai implement those semantics (memory model, fairness, Send/Sync "
@@ -350,7 +351,7 @@ PROPS.update({
     "C16": {
         "coq": "Properties/C16.v",
         "coq_extra": ["Properties/C16q.v", "Properties/C09text.v", "Properties/C16e.v", "Properties/RegexGen.v", "Properties/IniGen.v", "Properties/C16src.v"],
-        "pinchecks": ["PinChecks/PcIniGen.v", "PinChecks/PcRegexGen.v", "Gen/RegexExamples.v", "PinChecks/PcRegexFmGen.v", "PinChecks/PcStrFnGen.v", "PinChecks/PcBody_model.v", "PinChecks/PcStoreGen.v", "PinChecks/PcLinksGen.v", "PinChecks/PcFsaveGen.v", "PinChecks/PcAdaptersGen.v", "PinChecks/PcLiterals.v"] + ["PinChecks/PcBody_ffrontend.v"],
+        "pinchecks": ["PinChecks/PcIniGen.v", "PinChecks/PcRegexGen.v", "Gen/RegexExamples.v", "PinChecks/PcRegexFmGen.v", "PinChecks/PcStrFnGen.v", "PinChecks/PcModel2Gen.v", "PinChecks/PcStoreGen.v", "PinChecks/PcLinksGen.v", "PinChecks/PcFsaveGen.v", "PinChecks/PcAdaptersGen.v", "PinChecks/PcLiterals.v"] + ["PinChecks/PcBody_ffrontend.v"],
         "gen": "c16",
         "level_text": "Coq theorems at BYTE level over Model/Csv.v and Model/Ini.v (validated against the real functions through the cfg(casbin_verif) hooks): "
                       "c16_parse_render_row (every csv-safe row under every spacing/quoting layout parses back, scanner fuel proved adequate), file level with "
